@@ -879,6 +879,20 @@ fn run_proto<E: Endpoint>(a: &Args, o: &Shared, proto: &str, modes: &[&str]) {
                             w.apply(o, &Label::FeedRaw(0, e));
                         }
                     }
+                    if !v7 && proto == "6" && state_of(&w.fp(0)) == "Unconnected" && r.chance(1, 6) {
+                        // a (foreign) server answers the connect request with the placeholder value ff ff ff ff as the
+                        // token: whatever the connecting side makes of it, datagrams that do not carry the token it
+                        // then reports as agreed must stay inert
+                        w.apply(o, &Label::Connect(0));
+                        while !w.bag[0].is_empty() { w.apply(o, &Label::Drop(0, 0)); }
+                        w.apply(o, &Label::FeedRaw(0, vec![0x10, 0, 0, 2, b'T', b'K', b'E', b'N', 0xff, 0xff, 0xff, 0xff]));
+                        let t = [r.byte(), r.byte(), r.byte(), 0x11];
+                        for d in [vec![0x10u8, 0, 0, 4], vec![0x10, 0, 0, 4, t[0], t[1], t[2], t[3]], vec![0x00, 0, 1, 0x00, 0x01, 0x41], vec![0x00, 0, 1, 0x40, 0x01, 0x01, 0x41], vec![0x10, 0, 0, 0]] {
+                            if w.s[0].dead { break; }
+                            w.apply(o, &Label::FeedRaw(0, d));
+                        }
+                        continue;
+                    }
                     if state_of(&w.fp(0)) == "Unconnected" && r.chance(1, 2) {
                         // the acceptor is half-connected (it has answered the connect request, nothing else has
                         // arrived yet): datagrams without the token it handed out must not move it
